@@ -32,6 +32,10 @@ CHECKS = {
    "Breadth-first search to depth 3 (thorough 4) over write histories on a flat index for 7 (thorough 13) metric/quantiser combinations x 4 cache states (warm, reopened cold before every query, disabled, 1-byte limit); after every batch 4 queries x limits x weights x pre-filters must return exactly the k nearest admissible points under a float64 definition of the index distance (learned thresholds read back from the bucket), ties at the cut either way.",
    "product quantiser not covered; vectors from small per-metric pools; float32 tolerance",
    "explicit-state BFS over write histories x configurations vs brute-force k-NN reference", "DESIGN.md §4 C04"),
+ "C05": (True, "seqx", "model_checking",
+   "Breadth-first search to depth 3 (thorough 5, de-duplicated on the full bucket contents) over histories that insert, rewrite, blank out, remove and delete text fields (top-level and nested), from the empty and from a 6-document corpus, on warm, reopened and in-memory instances; after every batch ~500 text queries are compared with a brute-force tf-idf reference recomputed from the model (match set, scores, order, limit cut, hybrid score).",
+   "bleve's standard analyser is trusted; texts and queries from the stated alphabets",
+   "explicit-state BFS over write histories vs brute-force tf-idf reference", "DESIGN.md §4 C05"),
 }
 
 props = [json.loads(l) for l in open(os.path.join(HERE, "properties.jsonl"))]
